@@ -320,6 +320,8 @@ def run_history(mon, base, hid, steps, names, sh, snapshots_out=None):
             post = vp.snapshot(layers)
             sh.evaluations += 1
             action = judge(step, rep, pre, post, names, layers, src, sh, case)
+            if action is None and snapshots_out is not None:
+                action = "error" if "err" in rep else "create"      # (C20 only compares snapshots across processes: carry on)
             if action is None:
                 return
             sh.count("callbacks_observed", len(rep.get("callbacks", [])))
